@@ -17,7 +17,8 @@ def applyESubst (x : VId) (plug : Pat) : Pat → Option Pat
   | ex y p => if y = x then some (ex y p) else
       if plug.eFresh y then do let p' ← applyESubst x plug p; pure (ex y p') else none
   | mu Y p => if plug.sFresh Y then do let p' ← applyESubst x plug p; pure (mu Y p') else none   -- (F1)
-  | mv id ef sf ps ns holes => some (esub (mv id ef sf ps ns holes) x plug)
+  | mv id ef sf ps ns holes =>          -- (F12) declared fresh: the substitution is the identity
+      if ef.contains x then some (mv id ef sf ps ns holes) else some (esub (mv id ef sf ps ns holes) x plug)
   | esub p y q => some (esub (esub p y q) x plug)
   | ssub p Y q => some (esub (ssub p Y q) x plug)
   | svar X => some (svar X)
@@ -31,7 +32,8 @@ def applySSubst (X : VId) (plug : Pat) : Pat → Option Pat
   | ex y p => if plug.eFresh y then do let p' ← applySSubst X plug p; pure (ex y p') else none   -- (F1)
   | mu Y p => if Y = X then some (mu Y p) else
       if plug.sFresh Y then do let p' ← applySSubst X plug p; pure (mu Y p') else none
-  | mv id ef sf pos neg holes => some (ssub (mv id ef sf pos neg holes) X plug)
+  | mv id ef sf pos neg holes =>        -- (F12)
+      if sf.contains X then some (mv id ef sf pos neg holes) else some (ssub (mv id ef sf pos neg holes) X plug)
   | esub p x q => some (ssub (esub p x q) X plug)
   | ssub p Y q => some (ssub (ssub p Y q) X plug)
   | evar x => some (evar x)
